@@ -43,7 +43,8 @@ theorem advance_facts {c : Cfg} {s s' : St} (hs : s.sent ≤ s.image.length) (ha
       s'.subs = s.subs.drop (tOf c s) ∧ s'.checks = s.checks + tOf c s ∧
       s'.image.length = s.image.length ∧ s'.image.drop c.readLen = s.image.drop c.readLen ∧
       s'.sent = s.sent + (if remOf s = 0 then 0 else kOf c s) ∧
-      s'.timeRead = (s.timeRead || needDc c s) := by
+      s'.timeRead = (s.timeRead || needDc c s) ∧
+      s'.image.drop s'.sent = s.image.drop s'.sent := by
   obtain ⟨fr, idx', r, rs, hg, hr, hres⟩ := ha
   have hk : ∀ k, pushedOf c s = some k →
       ({ sentState s fr idx' (tOf c s) with resps := rs } : St).sent + k
@@ -59,9 +60,17 @@ theorem advance_facts {c : Cfg} {s s' : St} (hs : s.sent ≤ s.image.length) (ha
       { sentState s fr idx' (tOf c s) with resps := rs } r).st = s' := by
     rcases hres with h | h <;> rw [h] <;> rfl
   rw [hst] at ho
-  refine ⟨fr, r, hg, ho.1, ?_, ho.2.1, ho.2.2.1, ho.2.2.2.2.2.1, ho.2.2.2.2.2.2, ?_, hc.2.1⟩
+  have hsent : s'.sent = s.sent + (if remOf s = 0 then 0 else kOf c s) := by
+    rw [hc.1]; simp only [sentState, pushedOf]; split <;> simp
+  refine ⟨fr, r, hg, ho.1, ?_, ho.2.1, ho.2.2.1, ho.2.2.2.2.2.1, ?_, hsent, hc.2.1, ?_⟩
   · rw [hr, ho.2.2.2.2.1]
-  · rw [hc.1]; simp only [sentState, pushedOf]; split <;> simp
+  · exact ho.2.2.2.2.2.2 c.readLen (fun k _ => Nat.min_le_right _ _)
+  · refine ho.2.2.2.2.2.2 s'.sent ?_
+    intro k hk
+    unfold pushedOf at hk; split at hk
+    · cases hk
+    · rename_i hr0
+      cases hk; rw [hsent, if_neg hr0]; simp only [sentState]; exact Nat.min_le_left _ _
 
 /-! ### The fuel-driven loop: the last pass -/
 
